@@ -1277,20 +1277,23 @@ static std::string rctx(long k, const Range &R, int seed)
   return "#" + std::to_string(k) + " range=[" + fs(R.l) + "," + fs(R.u) + "] class=" + R.cls + " seed=" + std::to_string(seed);
 }
 
-// scripted generator with the min()/max() of a real engine: puts the extreme engine outputs in front
+// scripted generator with the min()/max() of a real engine: puts the extreme engine outputs in front.
+// It models std's UniformRandomBitGenerator (static constexpr min()/max()), so that the library may
+// use either g.min() or G::min().
+template <uint32_t MN, uint32_t MX>
 struct ScriptGen
 {
   typedef uint32_t result_type;
-  result_type mn, mx;
   std::vector<result_type> v;
   size_t i;
-  ScriptGen(result_type a, result_type b) : mn(a), mx(b), i(0)
+  ScriptGen() : i(0)
   {
+    const result_type a = MN, b = MX;
     const result_type s[] = {a, b, b - 1, a + 1, a + (b - a) / 2, b - 2, a + 16777217u, b - 127, b - 128, b - 129, b - 255, b - 256};
     v.assign(s, s + sizeof(s) / sizeof(s[0]));
   }
-  result_type min() const { return mn; }
-  result_type max() const { return mx; }
+  static constexpr result_type min() { return MN; }
+  static constexpr result_type max() { return MX; }
   result_type operator()() { return v[i++ % v.size()]; }
 };
 
@@ -1333,12 +1336,13 @@ static void uniformRealWith(const char *gname, int gno, long k, const Range &R, 
   vh::evaluated(vh::hash64(vh::hash64(23, gno), (uint64_t)k), width > 0);
 }
 
-static void scriptedUniformReal(long k, const Range &R, uint32_t mn, uint32_t mx, DistStats &D)
+template <uint32_t mn, uint32_t mx>
+static void scriptedUniformReal(long k, const Range &R, DistStats &D)
 {
   const double U     = roundingStep(R.l, R.u);
   const double width = (double)R.u - (double)R.l;
   const bool under   = width > 0 && width / ((double)mx - (double)mn) < ldexp(1.0, -126);
-  ScriptGen g(mn, mx);
+  ScriptGen<mn, mx> g;
   ru::uniform_real_distribution<float> d(R.l, R.u);
   for (size_t i = 0; i < g.v.size(); ++i) {
     uint32_t raw = g.v[i];
@@ -1416,8 +1420,8 @@ static void distributions(vh::Rng &r)
       int mB = mA == 2147483646 ? 1 : mA + 1;
       uniformRealWith<std::minstd_rand>("std::minstd_rand", 3, k, R, mA, mB, nDraws, 2147483645.0, D);
     }
-    scriptedUniformReal(k, R, 0u, 4294967295u, D);
-    scriptedUniformReal(k, R, 1u, 2147483646u, D);
+    scriptedUniformReal<0u, 4294967295u>(k, R, D);
+    scriptedUniformReal<1u, 2147483646u>(k, R, D);
     D.pairs++;
   }
   {
